@@ -48,11 +48,12 @@ import math, os, re, json, random
 from vlib.pipeline import Case
 from vlib import gen
 from props import c16_pm1 as pmx          # Pollard P-1 end to end (whole-function model): cases / oracle / klass
+from props import c16_pp1 as ppx          # Williams P+1 end to end (whole-function model): cases / oracle / klass
 import sys as _sys
 
 PID = "C16"
 GEN = ["params", "stage2"]
-LEAN = ["Ymq.Props.C16", "Ymq.Props.C16Pm1"]
+LEAN = ["Ymq.Props.C16", "Ymq.Props.C16Pm1", "Ymq.Props.C16Pp1"]
 AUDIT = "Ymq.Audit.C16"
 PROFILES = ["release", "chk"]
 TIMEOUT = 60.0
@@ -63,6 +64,9 @@ THEOREMS = ["Ymq.C16." + t for t in (
     "ecm_cover ecm128_cover pp1_cover pm1_cover ecm_grid_exact ecm128_grid_exact pp1_grid_exact pm1_grid_exact ecm_hits_exact pp1_hits_exact pm1_hits_exact ecm_nothing_above pp1_nothing_above pm1_nothing_above pm1_hit chirpz_coeff pp1_hit ecm_hit chebyshev_recurrence chebyshev_spec exp_modn_spec exp_modn_large_spec gcd_factors_prod rho64_proper guard_proper cumulative_products_chain check_gcd_factors_inv pm1_polyeval_inv pm1_result_proper shrink_ring_consistent check_gcd_factor_proper rho_impl_proper ynorm_spec ynorm_compare pm1base_full_stage1 pm1base_cover pm1base_hit pm1_found pp1_found ecm_found rows_ok pm1_degree pm1_rows_eff pm1_poly_rows reported_le_effective_ecm_counter reported_le_effective_pp1_counter reported_le_effective_pm1_counter ecm_badRows pp1_badRows pm1_badRows bad_rows_miss_a_value bad_row_witnesses_prime reported_le_effective_partial_ecm reported_le_effective_partial_pp1 reported_le_effective_partial_pm1 ecm128_arms_exact walk_reported_counter walk_reported_arms arms_contiguous_ecm arms_contiguous_ecm128 arms_contiguous_pp1 arms_d1_primes_below_b1 ecm_arm_covers ecm128_arm_covers "
     # Pollard P-1 end to end (Props/C16Pm1.lean)
     "pm1_gcd_factors_sound pm1_check_gcd_factors_sound pm1_impl_proper pm1_impl_complete_two_parts pm1_quick_proper pm1_only_proper pm1_quick_ignores_small pm1_arms_total pm1_impl_entry_panics pm1_walk_includes_stop_prime pm1_walk_product_accumulates").split()]
+THEOREMS += ["Ymq.C16." + t for t in (
+    # Williams P+1 end to end (Props/C16Pp1.lean)
+    "pp1_proper pp1_stage2_proper pp1_giant_range pp1_giant_values pp1_baby_values pp1_stage2_found_partial pp1_entry_panics").split()]
 HYPOTHESES = [
     "C17 (stage-1 exponent coverage): the exponent E accumulated by stage 1 is divisible by every prime power below B1 "
     "(and by every prime <= B1 for P-1/P+1); enters pm1_hit / pp1_hit / ecm_hit as the premise `group order of p divides E*m`",
@@ -93,6 +97,12 @@ MODELLED += [
     "check_gcd_factors per block, ring shrink, prime walk with its gap table, pm1_stage2_polyeval with from_roots / the convolution at "
     "their C10 specification, the f2.contains(n) guard, assembly of (factors, cofactor)), pm1_quick / pm1_only "
     "(Ymq/Model/Pm1Impl.lean; requests pm1_impl, pm1_quick_full, pm1_only_full, pm1_polyeval compare the complete returned value)",
+]
+MODELLED += [
+    "pp1::pp1 as a whole (starting value, stage-1 loop over sieve blocks with one Lucas ladder per prime power, the g == 1 and p > b1 exits, "
+    "check_gcd_factors per block, ring shrink with the constant 2 recomputed (fix 0bd0aa9), baby steps, giant steps i = 1..d2 with ghost indices, "
+    "roots_eval at its C10 specification, cumulative products, last check_gcd_factors, assembly of (factors, cofactor)) "
+    "(Ymq/Model/Pp1Impl.lean; request pp1_impl compares the complete returned value)",
 ]
 UNMODELLED = [
     "stage-1 exponent streams (SmoothBase, pm1 blocks): property C17, premise of the *_hit theorems",
@@ -1342,6 +1352,7 @@ def cases(tier, rng, extended=False):
         scale *= 5
     yield from boundary_cases(_fork(rng, "C16-boundary"), tier)
     yield from pmx.cases(tier, _fork(rng, "C16-pm1impl"), _sys.modules[__name__], extended)
+    yield from ppx.cases(tier, _fork(rng, "C16-pp1impl"), _sys.modules[__name__], extended)
     yield from table_cases()
     yield from sel_cases(rng, 60 * scale)
     yield from constructed_cases(tier, rng, extended)
@@ -1435,6 +1446,8 @@ def oracle(case, ans):
     op, a = case.op, case.args
     if op in pmx.OPS:
         return pmx.oracle(case, ans, _sys.modules[__name__])
+    if op in ppx.OPS:
+        return ppx.oracle(case, ans, _sys.modules[__name__])
     if ans in ("panic", "abort", "hang", "?") and op not in ("s2_gcdf",):
         return f"no answer ({ans})"
     if op == "s2_row":
@@ -1666,6 +1679,8 @@ def klass(case, ans):
     op = case.op
     if op in pmx.OPS:
         return pmx.klass(case, ans)
+    if op in ppx.OPS:
+        return ppx.klass(case, ans)
     tag = case.tag or ""
     short = ans.split(" ")[0] if ans else ""
     if op == "s2_pm1x":
